@@ -12,6 +12,12 @@ Same recipe for every component (pid in brackets; evidence/<pid>.json):
   [XLRU]   engine/src/lru_index.rs (+ VectorCache, its capacity-bounded caller)   XLru / XLruGen / XLruTrace
   [XALOG]  engine/src/access_logger.rs     XAccessLogger / XAccessLoggerGen / XAccessLoggerTrace
   [XUSAGE] engine/src/usage_tracker.rs     XUsage / XUsageGen / XUsageTrace
+  [XADM]   engine/src/adaptive_admission.rs    XAdmission / XAdmissionGen / XAdmissionTrace  (f32: micro-unit integers,
+           tolerance, resynchronised on the observed bias; a comparison within a margin of its threshold = VOID)
+  [XOVS]   engine/src/adaptive_oversampling.rs XOversampling / XOversamplingGen / XOversamplingTrace  (no state: a pure
+           function of the filter tree, checked as a transcription over TLC-enumerated trees)
+  [XCOH]   engine/src/coherence.rs             XCoherence / XCoherenceGen / XCoherenceTrace  (no state either: digest /
+           token equality relations over TLC-enumerated pairs of payloads)
 
 Time: behaviours with waits are replayed with real (small) durations; every call is bracketed by monotonic stamps and
 the judge decides from the stamps on which side of a threshold a comparison fell.  A comparison whose bracket
@@ -26,8 +32,8 @@ import vlib
 from vlib import Check, scratch, seed, log, ToolError
 
 EXTRAS = os.path.join(vlib.VERIF, "extras")
-COMPONENTS = ["cb", "lru", "alog", "usage"]
-PID = {"cb": "XCB", "lru": "XLRU", "alog": "XALOG", "usage": "XUSAGE"}
+COMPONENTS = ["cb", "lru", "alog", "usage", "adm", "ovs", "coh"]
+PID = {"cb": "XCB", "lru": "XLRU", "alog": "XALOG", "usage": "XUSAGE", "adm": "XADM", "ovs": "XOVS", "coh": "XCOH"}
 
 # ------------------------------------------------------------------------------------------------
 # plumbing: build, xlab, TLC worker budget, chunked judging
@@ -77,7 +83,7 @@ def xlab(sub, args, timeout=1500):
 
 
 class _Budget:
-    """at most 6 TLC workers at any time over all component threads"""
+    """at most 4 TLC workers at any time over all component threads (the machine is shared)"""
 
     def __init__(self, n):
         self.n = n
@@ -95,7 +101,7 @@ class _Budget:
             self.cv.notify_all()
 
 
-_budget = _Budget(6)
+_budget = _Budget(4)
 _uniq = [0]
 _uniq_lock = threading.Lock()
 
@@ -107,7 +113,7 @@ def uniq():
 
 
 def xtlc(module, workers=1, **kw):
-    workers = max(1, min(workers, 6))
+    workers = max(1, min(workers, 4))
     _budget.take(workers)
     try:
         time.sleep(0.002 * uniq() % 0.01)   # vlib names its temp files by the microsecond
@@ -240,7 +246,7 @@ def report(ck, replay_obj, what, finding_key=None):
 # ------------------------------------------------------------------------------------------------
 # the judges must have teeth: corrupt accepted recordings, every corrupted behaviour must be rejected
 # ------------------------------------------------------------------------------------------------
-_INPUT_KEYS = {"l", "s"}      # inputs echoed in the projection (for_each_recent limit / stop)
+_INPUT_KEYS = {"l", "s", "n0", "n1"}      # inputs echoed in the projection (for_each_recent limit / stop, time stamps)
 
 
 def _leaves(o, path, out):
@@ -255,10 +261,10 @@ def _leaves(o, path, out):
         out.append(path)
 
 
-def _mutate(ev, rng):
+def _mutate(ev, rng, bump=1):
     """change one observed scalar (result or projection) of a recorded call; returns a description or None"""
     cands = []
-    for top in ("ret", "rv", "obs"):
+    for top in ("ret", "rv", "obs", "factor", "o"):
         if top in ev:
             _leaves(ev[top], [top], cands)
     if not cands:
@@ -271,7 +277,7 @@ def _mutate(ev, rng):
     if isinstance(v, bool):
         o[path[-1]] = not v
     elif isinstance(v, int):
-        o[path[-1]] = v + 1
+        o[path[-1]] = v + bump
     elif v in ("true", "false"):
         o[path[-1]] = "false" if v == "true" else "true"
     elif v in ("closed", "open", "half"):
@@ -281,7 +287,7 @@ def _mutate(ev, rng):
     return "%s: %r -> %r" % (".".join(str(p) for p in path), v, o[path[-1]])
 
 
-def teeth(ck, name, module, lines_per_beh, per_call, consts=None, n=120):
+def teeth(ck, name, module, lines_per_beh, per_call, consts=None, n=120, bump=1):
     rng = random.Random(seed() * 7919 + len(name))
     pool = [i for i, bl in enumerate(lines_per_beh) if (len(bl) > 1 if per_call else True)]
     rng.shuffle(pool)
@@ -293,10 +299,13 @@ def teeth(ck, name, module, lines_per_beh, per_call, consts=None, n=120):
         if per_call:
             tgt = evs[rng.randrange(1, len(evs))]
         else:
-            if not evs[0].get("steps"):
+            if "steps" not in evs[0]:
+                tgt = evs[0]                      # one record = one evaluation (transcription checks)
+            elif not evs[0]["steps"]:
                 continue
-            tgt = rng.choice(evs[0]["steps"])
-        d = _mutate(tgt, rng)
+            else:
+                tgt = rng.choice(evs[0]["steps"])
+        d = _mutate(tgt, rng, bump)
         if d is None:
             continue
         mutated.append([json.dumps(e) for e in evs])
@@ -603,8 +612,169 @@ def run_usage(tier):
                       "rejected_behaviours": len(res["bad"]), "replay_wall_ms": stats["wall_ms"]})
 
 
-RUN = {"cb": run_cb, "lru": run_lru, "alog": run_alog, "usage": run_usage}
-REPLAY = {"cb": cb_replay_judge, "lru": lru_replay_judge, "alog": alog_replay_judge, "usage": usage_replay_judge}
+# ------------------------------------------------------------------------------------------------
+# XADM - adaptive admission controller (f32 arithmetic)
+# ------------------------------------------------------------------------------------------------
+def adm_generate(ck, tier):
+    q = tier == "quick"
+    beh = []
+    d = 2 if q else 3
+    r = xtlc("XAdmissionGen", workers=2 if q else 4, consts={"Grid": '"small"', "MaxOps": d}, timeout=3000)
+    ck.add_tlc("XAdmissionGen exhaustive small grid depth=%d (BiasBounded, DisabledZero, StepBounded, AdjCounts, EffInRange)" % d, r,
+               note="%d behaviours" % len(r.json_lines))
+    beh += r.json_lines
+    n, d = (4000, 12) if q else (40000, 20)
+    r = xtlc("XAdmissionGen", simulate=n, depth=d + 2, seed_=seed(), consts={"Grid": '"full"', "MaxOps": d}, timeout=3000)
+    ck.add_tlc("XAdmissionGen simulate full grid num=%d steps=%d (same invariants)" % (n, d), r)
+    beh += r.json_lines
+    return beh
+
+
+def adm_generate_timed(ck, tier):
+    n = 240 if tier == "quick" else 1500
+    r = xtlc("XAdmissionGen", simulate=n, depth=10, seed_=seed() + 1, consts={"Grid": '"timed"', "MaxOps": 7, "MaxWaits": 2}, timeout=3000)
+    ck.add_tlc("XAdmissionGen simulate timed family (interval 1 s, waits 400 / 1100 ms) num=%d steps=7" % n, r)
+    return r.json_lines
+
+
+def adm_replay_judge(ck, beh, tier, tag):
+    bpath = write_behaviours("adm." + tag, beh)
+    tpath = os.path.join(scratch(), "x.adm.%s.%d.ndjson" % (tag, uniq()))
+    sleepy = any(s["t"] == "wait" for b in beh for s in b["steps"])
+    stats = xlab("adm", ["--behaviours", bpath, "--out", tpath, "--threads", 96 if sleepy else 4])
+    os.remove(bpath)
+    rec = read_trace(tpath, per_call=False)
+    os.remove(tpath)
+    if len(rec) != len(beh):
+        raise ToolError("xlab adm recorded %d of %d behaviours" % (len(rec), len(beh)))
+    res = judge(ck, "(%s)" % tag, "XAdmissionTrace", rec, chunks=2 if tier == "quick" else 4)
+    for i in sorted(res["bad"]):
+        at = res["bad"][i]
+        b = json.loads(rec[i][0])
+        b["steps"] = b["steps"][:max(at, 1)]
+        report(ck, {"component": "adm", "behaviour": beh[i], "trace": b, "rejected_call": at},
+               "XAdmissionTrace rejected call %d of behaviour %d: %s" % (at, i, json.dumps(b["steps"][-1] if at else b["obs0"])[:500]))
+    return rec, res, stats
+
+
+def run_adm(tier):
+    ck = Check("XADM", tier)
+    beh = adm_generate(ck, tier)
+    rec, res, stats = adm_replay_judge(ck, beh, tier, "main")
+    tbeh = adm_generate_timed(ck, tier)
+    trec, tres, tstats = adm_replay_judge(ck, tbeh, tier, "timed")
+    good = [rec[i] for i in range(len(rec)) if i not in res["bad"] and i not in res["void"]]
+    good += [trec[i] for i in range(len(trec)) if i not in tres["bad"] and i not in tres["void"]]
+    teeth(ck, "adm", "XAdmissionTrace", good, per_call=False, bump=1000)
+    ck.cov["traces_validated_against_impl"] += len(good)
+    for i in (0, len(beh) - 1):
+        t = json.loads(rec[i][0])
+        ck.sample({"behaviour_cfg0": beh[i]["cfg0"], "first_call": t["steps"][0] if t["steps"] else None})
+    ck.assumptions += ["f32 arithmetic modelled in integer micro-units; real values accepted within 12 micro-units; the observed bias "
+                       "is the model's bias for the next call; a comparison within 60 micro-units of its threshold voids the behaviour",
+                       "control_interval_secs 0 / 3600, and 1 with real waits of 400 / 1100 ms (needs_refresh judged from measured stamps); max_bias >= 0 and floor <= 1 "
+                       "(f32::clamp panics otherwise); no NaN", "single thread"]
+    return ck.finish({"behaviours_replayed": len(beh) + len(tbeh), "calls_judged": stats["calls"] + tstats["calls"],
+                      "timed_behaviours": len(tbeh), "void_behaviours": len(res["void"]) + len(tres["void"]),
+                      "rejected_behaviours": len(res["bad"]) + len(tres["bad"]),
+                      "replay_wall_ms": stats["wall_ms"] + tstats["wall_ms"]})
+
+
+# ------------------------------------------------------------------------------------------------
+# XOVS - oversampling factor (pure function: transcription check)
+# ------------------------------------------------------------------------------------------------
+def ovs_generate(ck, tier):
+    q = tier == "quick"
+    beh = []
+    for deep, w1, w2 in [("FALSE", 3 if q else 4, 2), ("TRUE", 3, 2 if q else 3)]:
+        r = xtlc("XOversamplingGen", workers=2 if q else 4, consts={"Deep": deep, "W1": w1, "W2": w2}, timeout=3000)
+        ck.add_tlc("XOversamplingGen %s trees W1=%d W2=%d (Range, OneOnly, AndIsMin)" % ("level-2" if deep == "TRUE" else "level-1", w1, w2), r,
+                   note="%d trees" % len(r.json_lines))
+        beh += r.json_lines
+    return beh
+
+
+def ovs_replay_judge(ck, beh, tier, tag):
+    bpath = write_behaviours("ovs." + tag, beh)
+    tpath = os.path.join(scratch(), "x.ovs.%s.%d.ndjson" % (tag, uniq()))
+    stats = xlab("ovs", ["--behaviours", bpath, "--out", tpath])
+    os.remove(bpath)
+    rec = read_trace(tpath, per_call=False)
+    os.remove(tpath)
+    if len(rec) != len(beh):
+        raise ToolError("xlab ovs recorded %d of %d trees" % (len(rec), len(beh)))
+    res = judge(ck, "(%s)" % tag, "XOversamplingTrace", rec, chunks=1 if tier == "quick" else 4)
+    for i in sorted(res["bad"]):
+        e = json.loads(rec[i][0])
+        report(ck, {"component": "ovs", "behaviour": beh[i], "trace": e},
+               "XOversamplingTrace: calculate_oversampling_factor returned %s for %s" % (e["factor"], json.dumps(beh[i])[:400]))
+    return rec, res, stats
+
+
+def run_ovs(tier):
+    ck = Check("XOVS", tier)
+    beh = ovs_generate(ck, tier)
+    rec, res, stats = ovs_replay_judge(ck, beh, tier, "main")
+    good = [rec[i] for i in range(len(rec)) if i not in res["bad"]]
+    teeth(ck, "ovs", "XOversamplingTrace", good, per_call=False)
+    ck.cov["traces_validated_against_impl"] += len(good)
+    ck.sample(json.loads(rec[0][0]))
+    ck.sample(json.loads(rec[-1][0]))
+    ck.assumptions += ["adaptive_oversampling.rs has no state (pure function of the filter tree shape): transcription check over "
+                       "TLC-enumerated trees of depth <= 3", "keys / values / range bounds do not enter the function"]
+    return ck.finish({"behaviours_replayed": len(beh), "calls_judged": stats["calls"],
+                      "rejected_behaviours": len(res["bad"]), "replay_wall_ms": stats["wall_ms"]})
+
+
+# ------------------------------------------------------------------------------------------------
+# XCOH - coherence digest / token relations (pure functions: transcription check)
+# ------------------------------------------------------------------------------------------------
+def coh_generate(ck, tier):
+    q = tier == "quick"
+    beh = []
+    for mode, nl, ml in [("pairs", 3, 3 if q else 4), ("pairs", 6, 2), ("oneoff", 6, 0)]:
+        r = xtlc("XCoherenceGen", workers=2, consts={"Mode": '"%s"' % mode, "NL": nl, "MaxLen": ml, "MaxLong": 9 if q else 13}, timeout=3000)
+        ck.add_tlc("XCoherenceGen %s lanes=%d maxlen=%d (Sane)" % (mode, nl, ml), r, note="%d cases" % len(r.json_lines))
+        beh += r.json_lines
+    return beh
+
+
+def coh_replay_judge(ck, beh, tier, tag):
+    bpath = write_behaviours("coh." + tag, beh)
+    tpath = os.path.join(scratch(), "x.coh.%s.%d.ndjson" % (tag, uniq()))
+    stats = xlab("coh", ["--behaviours", bpath, "--out", tpath])
+    os.remove(bpath)
+    rec = read_trace(tpath, per_call=False)
+    os.remove(tpath)
+    if len(rec) != len(beh):
+        raise ToolError("xlab coh recorded %d of %d cases" % (len(rec), len(beh)))
+    res = judge(ck, "(%s)" % tag, "XCoherenceTrace", rec, chunks=1 if tier == "quick" else 4)
+    for i in sorted(res["bad"]):
+        e = json.loads(rec[i][0])
+        report(ck, {"component": "coh", "behaviour": beh[i], "trace": e},
+               "XCoherenceTrace rejected %s" % json.dumps(e)[:400])
+    return rec, res, stats
+
+
+def run_coh(tier):
+    ck = Check("XCOH", tier)
+    beh = coh_generate(ck, tier)
+    rec, res, stats = coh_replay_judge(ck, beh, tier, "main")
+    good = [rec[i] for i in range(len(rec)) if i not in res["bad"]]
+    teeth(ck, "coh", "XCoherenceTrace", good, per_call=False)
+    ck.cov["traces_validated_against_impl"] += len(good)
+    ck.sample(json.loads(rec[0][0]))
+    ck.sample(json.loads(rec[-1][0]))
+    ck.assumptions += ["coherence.rs has no state and no CAS rule (pure digest + derived equality): relational transcription check",
+                       "lanes = 6 f32 bit patterns (+0.0, -0.0, 1.0, a NaN, smallest subnormal, 1.0 + 1 ulp); the hash itself "
+                       "(64-bit wrapping arithmetic) is not re-computed in TLA+, only the relations its users rely on"]
+    return ck.finish({"behaviours_replayed": len(beh), "calls_judged": stats["calls"],
+                      "rejected_behaviours": len(res["bad"]), "replay_wall_ms": stats["wall_ms"]})
+
+
+RUN = {"cb": run_cb, "lru": run_lru, "alog": run_alog, "usage": run_usage, "adm": run_adm, "ovs": run_ovs, "coh": run_coh}
+REPLAY = {"cb": cb_replay_judge, "lru": lru_replay_judge, "alog": alog_replay_judge, "usage": usage_replay_judge,
+          "adm": adm_replay_judge, "ovs": ovs_replay_judge, "coh": coh_replay_judge}
 
 
 # ------------------------------------------------------------------------------------------------
